@@ -397,7 +397,53 @@ fn n_engine(ctx: &Ctx) {
 
 // ---------------------------------------------------------------- lazy tables, threads
 
+/// Digest of the outputs of a fixed family of builds (used to compare separate processes = fresh hash seeds).
+fn process_digest() -> (u64, usize) {
+    let unis = [Universe::new("U_adv(A_cls)", A_CLS, 2, 2, false), Universe::new("U_ab3{a,b}", &["a", "b"], 3, 3, false)];
+    let cfgs = [Cfg::new(0), Cfg::new(R), Cfg::new(D), Cfg::new(W | D | R), Cfg::new(I | NE)];
+    let mut h: u64 = 0xcbf29ce484222325;
+    let mut n = 0;
+    for u in &unis {
+        for i in 0..u.len() {
+            let t = u.set(i);
+            for c in &cfgs {
+                let o = c.build(&t).unwrap_or_else(|e| format!("<panic {e}>"));
+                for b in o.bytes().chain([0xff]) {
+                    h = (h ^ b as u64).wrapping_mul(0x100000001b3);
+                }
+                n += 1;
+            }
+        }
+    }
+    (h, n)
+}
+
+fn process_seeds(ctx: &Ctx) {
+    let exe = std::env::current_exe().expect("current_exe");
+    let (own, n) = process_digest();
+    let procs = if ctx.run.is_thorough() { 16 } else { 4 };
+    let results = Mutex::new(BTreeSet::new());
+    par_for(procs, |_| match std::process::Command::new(&exe).args(["C10-child", "digest"]).output() {
+        Ok(o) if o.status.success() => {
+            results.lock().unwrap().insert(String::from_utf8_lossy(&o.stdout).trim().to_string());
+        }
+        Ok(o) => ctx.run.machinery_error(format!("digest child failed: {:?}", o.status)),
+        Err(e) => ctx.run.machinery_error(format!("cannot spawn digest child: {e}")),
+    });
+    let mut seen = results.into_inner().unwrap();
+    seen.insert(format!("{own:016x}"));
+    ctx.run.evals.fetch_add((n * (procs + 1)) as u64, Ordering::Relaxed);
+    if seen.len() > 1 {
+        ctx.run.violation(viol("C10", "determinism", "process-sensitive (fresh hash seeds)".into(), &[], &Cfg::new(0), "", json!({"distinct_digests": seen.iter().collect::<Vec<_>>(), "builds_per_process": n})));
+    }
+    ctx.run.space(json!({"engine": "separate processes (fresh per-process hash seeds): digest of a fixed family of builds compared across processes and with this process", "processes": procs + 1, "builds_per_process": n, "distinct_digests": seen.len()}));
+}
+
 pub fn child_lazy(args: &[String]) -> i32 {
+    if args[0] == "digest" {
+        println!("{:016x}", process_digest().0);
+        return 0;
+    }
     // C10-child <perm as digits of 0,1,2>: first-use order of the three lazily built range tables
     let probes: [(u32, &str); 3] = [(D, "\u{663}"), (W, "\u{e9}"), (S, "\u{2003}")];
     let mut outs = vec![String::new(); 3];
@@ -461,6 +507,7 @@ pub fn run(ctx: &Ctx) {
     orders(ctx);
     n_engine(ctx);
     lazy_tables(ctx);
+    process_seeds(ctx);
     if ctx.run.is_thorough() {
         threads_sampling(ctx);
     }
